@@ -1039,6 +1039,87 @@ func c17Judge(rep *Report, in c17Input, envs []*C17Env) bool {
 	return true
 }
 
+// the operator form judged against the mapped Go function APPLIED DIRECTLY to the operand values, in order (the
+// explicit-call form runs through the same call instruction, so a fault of that instruction shows in neither of the two
+// forms compared above); operands include an interface-typed member that is nil at run time
+func c17DirectOracle(rep *Report) {
+	for _, kind := range c17All {
+		for _, stNil := range []bool{false, true} {
+			e := c17BaseEnv()
+			if stNil {
+				e.St = nil
+			}
+			type dcase struct {
+				src  string
+				op   string
+				fns  []string
+				want func() interface{}
+			}
+			cases := []dcase{
+				{"A + St", "+", []string{"AddAny"}, func() interface{} { return e.AddAny(e.A, e.St) }},
+				{"St + A", "+", []string{"AddAny"}, func() interface{} { return e.AddAny(e.St, e.A) }},
+				{"St + St", "+", []string{"AddAny"}, func() interface{} { return e.AddAny(e.St, e.St) }},
+				{"I + St", "+", []string{"AddAny"}, func() interface{} { return e.AddAny(e.I, e.St) }},
+				{"A + B", "+", []string{"AddAny"}, func() interface{} { return e.AddAny(e.A, e.B) }},
+				{"[A + St, St + B]", "+", []string{"AddAny"}, func() interface{} { return []interface{}{e.AddAny(e.A, e.St), e.AddAny(e.St, e.B)} }},
+				{"A - B", "-", []string{"Sub"}, func() interface{} { return e.Sub(e.A, e.B) }},
+				{"B - A", "-", []string{"Sub"}, func() interface{} { return e.Sub(e.B, e.A) }},
+				{"A + I", "+", []string{"Add", "AddInt"}, func() interface{} { return e.AddInt(e.A, e.I) }},
+				{"I + A", "+", []string{"Add", "IntAdd"}, func() interface{} { return e.IntAdd(e.I, e.A) }},
+				{"D + A", "+", []string{"Add", "AddSM"}, func() interface{} { return e.AddSM(e.D, e.A) }},
+				{"A < B", "<", []string{"Less"}, func() interface{} { return e.Less(e.A, e.B) }},
+				{"B < A", "<", []string{"Less"}, func() interface{} { return e.Less(e.B, e.A) }},
+				{"A in Ms", "in", []string{"Has"}, func() interface{} { return e.Has(e.A, e.Ms) }},
+				// the occurrence sits inside the arguments of a function of the fast shape func(...interface{}) interface{}
+				{"Pack(A + B)", "+", []string{"Add"}, func() interface{} { return e.Pack(e.Add(e.A, e.B)) }},
+				{"Pack(1, A - B, \"x\")", "-", []string{"Sub"}, func() interface{} { return e.Pack(1, e.Sub(e.A, e.B), "x") }},
+				{"Pack(Pack(A + B), [A + C])", "+", []string{"Add"}, func() interface{} {
+					x := e.Add(e.A, e.B)
+					inner := e.Pack(x)
+					return e.Pack(inner, []interface{}{e.Add(e.A, e.C)})
+				}},
+				{"Pack(I < 9, Ok ? A + B : A)", "+", []string{"Add"}, func() interface{} { return e.Pack(e.I < 9, e.Add(e.A, e.B)) }},
+			}
+			for _, c := range cases {
+				rep.Evaluations++
+				rep.hist("direct application of the mapped function")
+				in := map[string]interface{}{"direct": true, "env": kind, "St_is_nil": stNil, "expr": c.src, "operator": c.op, "functions": c.fns}
+				callLog = nil
+				var want interface{}
+				wantPanic := ""
+				func() {
+					defer func() {
+						if r := recover(); r != nil {
+							wantPanic = fmt.Sprint(r)
+						}
+					}()
+					want = c.want()
+				}()
+				wantLog := c17LogString(callLog)
+				p, err, panicked := c17CompileSafe(c.src, []expr.Option{expr.Env(c17EnvAs(c17BaseEnv(), kind)), expr.Operator(c.op, c.fns...)})
+				if panicked || err != nil {
+					rep.fail(Failure{Key: "C17-compile-differs", What: "an operator whose mapped function fits the operands is not accepted", Input: in, Want: "a program", Got: fmt.Sprint(err)})
+					continue
+				}
+				r := c17RunSafe(p, c17EnvAs(e, kind))
+				switch {
+				case wantPanic != "":
+					if r.cls == "" {
+						rep.fail(Failure{Key: "C17-result-differs", What: "the mapped function applied to the operands in order panics, the operator form returns a value", Input: in,
+							Want: "a failure (" + wantPanic + ")", Got: c17Show(r)})
+					}
+				case r.cls != "" || !reflect.DeepEqual(r.out, want):
+					rep.fail(Failure{Key: "C17-result-differs", What: "the operator form differs from the mapped function applied to the operands in order", Input: in,
+						Want: fmt.Sprintf("%#v, calls %s", want, wantLog), Got: c17Show(r)})
+				case c17LogString(r.log) != wantLog:
+					rep.fail(Failure{Key: "C17-calls-differ", What: "the operator form calls the mapped function with other arguments than the operands in order", Input: in,
+						Want: "calls " + wantLog, Got: "calls " + c17LogString(r.log)})
+				}
+			}
+		}
+	}
+}
+
 func c17ErrStr(e error) string {
 	if e == nil {
 		return "accepted"
@@ -1577,6 +1658,7 @@ func runC17() {
 		}
 	}
 	c17ConfigOracle(rep)
+	c17DirectOracle(rep)
 	c17Tenants(rep)
 
 	rep.Extra["binary_occurrences"] = occ
